@@ -41,7 +41,7 @@ def _case(draw, tier):
     fu = draw(st.sampled_from(gen.FIELD_UNITS))
     cu = draw(st.sampled_from(gen.CURRENT_UNITS))
     fld = draw(gen.field(dev, fu, kinds=("constant", "ramp", "float"), bmax=0.25 if scr else 0.5))
-    cur = draw(gen.currents(dev, cu, kinds=("callable", "callable", "dict")))
+    cur = draw(gen.currents(dev, cu, kinds=("callable", "callable", "dict"), generic=True))
     eps = draw(st.sampled_from([None, None, "disc", "timedep"]))
     if isinstance(eps, str):
         xi = dev["layer"]["xi"]
@@ -81,8 +81,15 @@ def check_case(spec):
             out_name = ["out.h5", "another name.h5", os.path.join("deep", "er", "o.h5")][i % 3]
             procs.append(subprocess.Popen([sys.executable, "-m", "vt.c09_child", sp, out_name], cwd=wd, env=env,
                                           stdout=subprocess.PIPE, stderr=subprocess.PIPE, text=True))
-        for p in procs:
-            so, se = p.communicate(timeout=900)
+        results = []
+        try:
+            for p in procs:
+                results.append(p.communicate(timeout=900))
+        finally:
+            for p in procs:
+                if p.poll() is None:
+                    p.kill()
+        for p, (so, se) in zip(procs, results):
             line = [l for l in so.splitlines() if l.startswith("{")]
             if p.returncode != 0 or not line:
                 if "Malformed Voronoi" in se or "exactly singular" in se or "does not contain any points" in se:
